@@ -16,6 +16,10 @@ def run_h(history):
 
 
 def mk_cfg(ctx, variant="main"):
+    if variant == "epoch0":
+        # a board without a battery-backed clock: the kernel publishes boot time 0 until the clock is set
+        return pm.Cfg(seed=ctx.seed, slots=("A",), max_objs=2, actions=(), clock=True, queries=(), numeric=True,
+                      use_iter=False, use_exit=False, btime0=0)
     if variant == "deny":
         # objects built while /proc/<pid>/stat was unreadable (creation time unknown), permission restored later: whatever
         # psutil decides about their equality, a mere query (create_time(), is_running() ...) must not change it afterwards
@@ -35,7 +39,17 @@ def run(ctx):
     for v in res["violations"]:
         if isinstance(v.get("case"), dict):
             v["case"].setdefault("part", "H")
+    _CFG = mk_cfg(ctx, "epoch0")
+    ctx.close()
+    r3 = bfs(run_h, (6 if ctx.thorough else 5) - (1 if ctx.alt else 0), ctx)
+    for v in r3["violations"]:
+        v["case"]["variant"] = "epoch0"
+        v["case"]["part"] = "H"
+    res["violations"] = res["violations"] + r3["violations"]
+    res["states"] += r3["states"]
+    res["transitions"] += r3["transitions"]
     _CFG = mk_cfg(ctx, "deny")
+    ctx.close()
     r2 = bfs(run_h, (8 if ctx.thorough else 7) - (2 if ctx.alt else 0), ctx)
     for v in r2["violations"]:
         v["case"]["variant"] = "deny"
